@@ -297,3 +297,24 @@ pub fn h_completed() {
     sym::cover("incomplete", !all);
     sym::check("C08/is_completed", s.is_completed() == all);
 }
+
+/// one required variable left out (or none) while one optional variable is present: which optional variables are
+/// there must not influence which required ones are demanded
+pub fn h_missing_with_optional() {
+    let mut ls = base_lines();
+    let omit = sym::choose("omit", ls.len() + 1);
+    if omit < ls.len() {
+        ls.remove(omit);
+    }
+    let opt = [3usize, 4, 6, 7, 8, 9, 10, 14, 18, 19, 20, 22][sym::choose("opt", 12)];
+    let mut l = NAMES[opt].as_bytes().to_vec();
+    l.push(b'=');
+    l.push(if KIND[opt] == 2 { b'4' } else { b'x' });
+    if sym::choose("at", 2) == 0 {
+        ls.insert(0, l);
+    } else {
+        ls.push(l);
+    }
+    let text = join(&ls);
+    compare(&text);
+}
